@@ -341,6 +341,53 @@ def flac_with_picture(d):
     return d[:p] + blk + d[p:]
 
 
+def _vc_block_bytes(vendor, items):
+    b = struct.pack("<I", len(vendor)) + vendor + struct.pack("<I", len(items))
+    for it in items:
+        b += struct.pack("<I", len(it)) + it
+    return b
+
+
+def _flac_blocks(d):
+    p = 4
+    out = []
+    while True:
+        h = d[p]; n = int.from_bytes(d[p + 1:p + 4], "big")
+        out.append((p, h, n)); p += 4 + n
+        if h & 0x80:
+            return out
+
+
+def flac_two_comment_blocks(d):
+    """a second VORBIS_COMMENT block behind the first one (readers tolerate it; upstream issue 377)"""
+    if d[:4] != b"fLaC":
+        return None
+    vc = [b for b in _flac_blocks(d) if b[1] & 0x7F == 4 and not b[1] & 0x80]
+    if not vc:
+        return None
+    off, h, n = vc[0]
+    pl2 = _vc_block_bytes(b"second writer", [b"TITLE=duplicate block " + MARK2, b"ARTIST=dup"])
+    return d[:off + 4 + n] + bytes([4]) + len(pl2).to_bytes(3, "big") + pl2 + d[off + 4 + n:]
+
+
+MARK2 = b"Zq9Xj-second"
+
+
+def flac_unicode_vendor(d):
+    """the encoder's vendor string with non-ASCII characters (kept by every save)"""
+    if d[:4] != b"fLaC":
+        return None
+    vc = [b for b in _flac_blocks(d) if b[1] & 0x7F == 4]
+    if not vc:
+        return None
+    off, h, n = vc[0]
+    pl = d[off + 4:off + 4 + n]
+    vlen = int.from_bytes(pl[:4], "little")
+    vendor = "Кодер 編碼器 ü 1.0".encode("utf-8")
+    npl = struct.pack("<I", len(vendor)) + vendor + pl[4 + vlen:]
+    return d[:off] + bytes([h]) + len(npl).to_bytes(3, "big") + npl + d[off + 4 + n:]
+
+
 def flac_long_total(d):
     """STREAMINFO with a total sample count above 2^32 (the field has 36 bits)"""
     if d[:4] != b"fLaC" or d[4] & 0x7F != 0:
@@ -385,6 +432,12 @@ def extra_samples(kind, base):
             x = flac_with_picture(d0)
             if x:
                 out.append(("synth-picture-nonascii+" + name0, x))
+            x = flac_two_comment_blocks(d0)
+            if x:
+                out.append(("synth-two-comment-blocks+" + name0, x))
+            x = flac_unicode_vendor(d0)
+            if x:
+                out.append(("synth-unicode-vendor+" + name0, x))
         elif kind.family == "mp4":
             for nm, dd in base:
                 x = mp4_ilst_first(dd)
